@@ -378,7 +378,8 @@ Definition fifo_step (cfg : config) (fuel : nat) (s : pstate) (e : pevent) : pst
 
 Inductive srv : Type :=
 | SOk          (* non-error reply *)
-| SRej         (* 4xx/5xx reply *)
+| SRej         (* 5xx reply *)
+| SRej4        (* 4xx reply *)
 | SDrop.       (* no usable reply: connection lost / command timeout / socket error *)
 
 Record mscript : Type := mkMs {
@@ -395,15 +396,30 @@ Inductive wire : Type :=
 | WConnect | WHandshake
 | WMail (e : N) | WRcpt (e : N) | WData (e : N) | WBody (e : N) | WEmptyBody (e : N)
 | WRset | WQuit | WClose
-| WResult (e : N) (ok : bool)   (* ghost: the AsyncResult of envelope e's request is completed *)
+| WResult (e : N) (ok : bool)   (* ghost: the AsyncResult of envelope e's request is completed:
+                                   result.set(...) (ok) / result.set_exception(...) *)
+| WResultRcpts (e : N)          (* ghost: _set_failure's rcpt_errors branch: the transaction failed (every
+                                   recipient rejected, for different classes of reasons) and is reported
+                                   with result.set({rcpt: its own error}) *)
 | WRequeue (e : N).             (* ghost: queue.appendleft((result, envelope)) *)
 
 Inductive dres : Type :=
 | DOk                       (* result.set(...) done *)
-| DRejected (alive : bool)  (* result.set_exception done, RSET sent; alive = RSET round trip survived *)
+| DRejected (mixed : bool) (alive : bool)
+                            (* _set_failure done (mixed: through its rcpt_errors branch), RSET sent;
+                               alive = RSET round trip survived *)
 | DLost.                    (* exception propagates to _run; result NOT yet completed *)
 
-Definition is_rej (x : srv) : bool := match x with SRej => true | _ => false end.
+Definition is_rej (x : srv) : bool := match x with SRej | SRej4 => true | _ => false end.
+Definition is_rej4 (x : srv) : bool := match x with SRej4 => true | _ => false end.
+Definition is_rej5 (x : srv) : bool := match x with SRej => true | _ => false end.
+(* _check_replies: `any(type(error) is not type(errors[0]) ...)`: SmtpRelayError.factory gives the
+   transient class for 4xx and the permanent class for 5xx *)
+Definition mixed_class (l : list srv) : bool := existsb is_rej4 l && existsb is_rej5 l.
+
+(* _set_failure(result, envelope, exc) *)
+Definition set_failure (e : N) (mixed : bool) : wire :=
+  if mixed then WResultRcpts e else WResult e false.
 Definition is_drop (x : srv) : bool := match x with SDrop => true | _ => false end.
 
 (* [self._rcptto(rcpt) for rcpt in envelope.recipients] without PIPELINING: stops at the first lost reply *)
@@ -414,21 +430,24 @@ Fixpoint send_rcpts (e : N) (l : list srv) : list wire * bool :=
   | _ :: l' => let (w, ok) := send_rcpts e l' in (WRcpt e :: w, ok)
   end.
 
-(* except SmtpRelayError in _deliver: result.set_exception(e); self._rset() *)
-Definition failed (e : N) (sc : mscript) (pre : list wire) : list wire * dres :=
-  (pre ++ [WResult e false; WRset], DRejected (ms_rset sc)).
+(* except SmtpRelayError in _deliver: self._set_failure(result, envelope, e); self._rset()
+   [mx]: the exception carries rcpt_errors *)
+Definition failed (e : N) (sc : mscript) (mx : bool) (pre : list wire) : list wire * dres :=
+  (pre ++ [set_failure e mx; WRset], DRejected mx (ms_rset sc)).
 
 (* `if data and not data.is_error(): self._send_empty_data()` inside `except SmtpRelayError`, then
    re-raise to _deliver (set_exception; _rset).  Without PIPELINING the lone "." is flushed and
    its reply read at once (under the data timeout); with PIPELINING send_empty_data only buffers
    it: it reaches the wire, and its reply is read, together with RSET - after the result was set. *)
-Definition empty_data (pipe : bool) (e : N) (sc : mscript) (pre : list wire) : list wire * dres :=
+Definition empty_data (pipe : bool) (e : N) (sc : mscript) (mx : bool) (pre : list wire)
+  : list wire * dres :=
   if pipe then
-    (pre ++ [WResult e false; WEmptyBody e; WRset], DRejected (negb (is_drop (ms_body sc)) && ms_rset sc))
+    (pre ++ [set_failure e mx; WEmptyBody e; WRset],
+     DRejected mx (negb (is_drop (ms_body sc)) && ms_rset sc))
   else
     match ms_body sc with
     | SDrop => (pre ++ [WEmptyBody e], DLost)
-    | _ => failed e sc (pre ++ [WEmptyBody e])
+    | _ => failed e sc mx (pre ++ [WEmptyBody e])
     end.
 
 (* after DATA was answered: _check_replies, then the body.  mail_rej: MAIL reply is an error (only
@@ -438,28 +457,30 @@ Definition after_data (pipe : bool) (e : N) (sc : mscript) (mail_rej : bool) (pr
   match ms_rcpts sc with
   | [] => if mail_rej
           then match ms_data sc with
-               | SOk => empty_data pipe e sc pre
-               | _ => failed e sc pre
+               | SOk => empty_data pipe e sc false pre
+               | _ => failed e sc false pre
                end
           else (pre, DLost)                    (* rcpttos[0]: IndexError, not a SmtpRelayError *)
   | _ =>
     if mail_rej || forallb is_rej (ms_rcpts sc) || is_rej (ms_data sc) then
-      (* raise in _check_replies *)
+      (* raise in _check_replies: the MAIL error first; then, when every recipient was rejected,
+         errors[0] - carrying rcpt_errors when the classes differ; then the DATA error *)
+      let mx := negb mail_rej && forallb is_rej (ms_rcpts sc) && mixed_class (ms_rcpts sc) in
       match ms_data sc with
-      | SOk => empty_data pipe e sc pre
-      | _ => failed e sc pre
+      | SOk => empty_data pipe e sc mx pre
+      | _ => failed e sc mx pre
       end
     else
       match ms_body sc with
       | SOk => (pre ++ [WBody e; WResult e true], DOk)
-      | SRej => failed e sc (pre ++ [WBody e])
       | SDrop => (pre ++ [WBody e], DLost)
+      | _ => failed e sc false (pre ++ [WBody e])
       end
   end.
 
 (* _deliver(result, envelope) = _handle_encoding; _send_envelope; _send_message_data *)
 Definition deliver (pipe : bool) (e : N) (sc : mscript) : list wire * dres :=
-  if negb (ms_enc sc) then failed e sc []
+  if negb (ms_enc sc) then failed e sc false []
   else if pipe then
     (* MAIL, RCPT..., DATA are written before any reply is read *)
     let pre := WMail e :: map (fun _ => WRcpt e) (ms_rcpts sc) ++ [WData e] in
@@ -469,7 +490,7 @@ Definition deliver (pipe : bool) (e : N) (sc : mscript) : list wire * dres :=
   else
     match ms_mail sc with
     | SDrop => ([WMail e], DLost)
-    | SRej => failed e sc [WMail e]
+    | SRej | SRej4 => failed e sc false [WMail e]
     | SOk =>
         let (wr, alive) := send_rcpts e (ms_rcpts sc) in
         if negb alive then (WMail e :: wr, DLost)
@@ -491,6 +512,7 @@ Inductive cact : Type :=
 Definition K_OK : N := 0.
 Definition K_REJECTED : N := 1.
 Definition K_LOST : N := 2.
+Definition K_RCPTS : N := 3.      (* failed; reported as a dict of per-recipient errors *)
 
 Definition poll_item : Type := option (request * mscript).   (* None: idle timeout expired *)
 
@@ -514,8 +536,8 @@ Fixpoint smtp_loop (pipe reuse : bool) (rest : list poll_item) (r : request) (sc
       else (w, [ADone r k], true) in
     match d with
     | DOk => continue K_OK
-    | DRejected true => continue K_REJECTED
-    | DRejected false => (w, [ADone r K_REJECTED], true)
+    | DRejected mx true => continue (if mx then K_RCPTS else K_REJECTED)
+    | DRejected mx false => (w, [ADone r (if mx then K_RCPTS else K_REJECTED)], true)
     | DLost => (w ++ [WResult e false], [ADone r K_LOST], true)
     end.
 
@@ -532,7 +554,7 @@ Definition smtp_run (pipe reuse : bool) (cs : cscript) (polls : list poll_item)
       if negb (cs_connect cs) then
         ([WConnect; WResult e false], [AEnter; APoll r; ADone r K_LOST; AExit], true)
       else match cs_handshake cs with
-      | SRej => ([WConnect; WHandshake; WResult e false; WQuit; WClose],
+      | SRej | SRej4 => ([WConnect; WHandshake; WResult e false; WQuit; WClose],
                  [AEnter; APoll r; ADone r K_REJECTED; AExit], true)
       | SDrop => ([WConnect; WHandshake; WResult e false; WQuit; WClose],
                   [AEnter; APoll r; ADone r K_LOST; AExit], true)
@@ -557,20 +579,21 @@ Fixpoint one_at_a_time (cur : option N) (log : list wire) : bool :=
       | WBody e | WEmptyBody e =>
           match cur with Some e' => (e =? e') && one_at_a_time None l | None => false end
       | WRset => one_at_a_time None l
-      | WResult e _ | WRequeue e =>
+      | WResult e _ | WResultRcpts e | WRequeue e =>
           match cur with Some e' => (e =? e') && one_at_a_time cur l | None => one_at_a_time cur l end
       | WConnect | WHandshake | WQuit | WClose => one_at_a_time cur l
       end
   end.
 
-(* a failed transaction is reset before the next message: after a result that is an error, no
-   MAIL until RSET *)
+(* a failed transaction is reset before the next message: after a failed transaction - reported
+   with set_exception (WResult _ false) or, for recipients rejected in different classes, with a
+   dict of per-recipient errors (WResultRcpts) - no MAIL until RSET *)
 Fixpoint reset_after_failure (dirty : bool) (log : list wire) : bool :=
   match log with
   | [] => true
   | w :: l =>
       match w with
-      | WResult _ false => reset_after_failure true l
+      | WResult _ false | WResultRcpts _ => reset_after_failure true l
       | WRset => reset_after_failure false l
       | WMail _ => if dirty then false else reset_after_failure dirty l
       | _ => reset_after_failure dirty l
